@@ -1,4 +1,855 @@
-//! C28: not built yet.
-use crate::util::Ctx;
+//! C28 — variable coercion follows the specification.
+//!
+//! Stream `c28.cv`: (schema description, variable definitions, JSON variables) ↦ `ok <json>` | `err`.
+//! The real code is `apollo_compiler::request::coerce_variable_values` on a schema/operation that went
+//! through full validation.  The oracle is a reference coercer written from the GraphQL specification
+//! (October 2021 §6.1.2 CoerceVariableValues, §3.5–§3.12 input coercion) with apollo-compiler's documented
+//! scalar rules; it never looks at apollo's `Schema`, only at the generator's own description.
+use crate::util::*;
+use apollo_compiler::{ExecutableDocument, Schema};
+use serde_json_bytes::Value as SJ;
 
-pub fn run(_ctx: &mut Ctx) {}
+// ───────────────────────── data ─────────────────────────
+
+#[derive(Clone, Debug, PartialEq)]
+pub enum Ty {
+    Named(String),
+    NonNullNamed(String),
+    List(Box<Ty>),
+    NonNullList(Box<Ty>),
+}
+
+/// JSON without floats-as-floats: a number is an integer or a float *text*.
+#[derive(Clone, Debug, PartialEq)]
+pub enum JV {
+    Null,
+    Bool(bool),
+    Int(i128),
+    Float(String),
+    Str(String),
+    Arr(Vec<JV>),
+    Obj(Vec<(String, JV)>),
+}
+
+/// GraphQL constant literal (default values)
+#[derive(Clone, Debug, PartialEq)]
+pub enum Lit {
+    Null,
+    Bool(bool),
+    Int(i128),
+    Float(String),
+    Str(String),
+    Enum(String),
+    List(Vec<Lit>),
+    Obj(Vec<(String, Lit)>),
+}
+
+#[derive(Clone, Debug)]
+pub struct FieldDef {
+    pub name: String,
+    pub ty: Ty,
+    pub default: Option<Lit>,
+}
+
+#[derive(Clone, Debug)]
+pub enum Kind {
+    Scalar,
+    Enum(Vec<String>),
+    Input(Vec<FieldDef>),
+}
+
+#[derive(Clone, Debug)]
+pub struct SchemaDesc {
+    pub types: Vec<(String, Kind)>,
+}
+
+impl SchemaDesc {
+    fn kind(&self, n: &str) -> Option<&Kind> {
+        self.types.iter().find(|(k, _)| k == n).map(|(_, k)| k)
+    }
+}
+
+const BUILTIN: [&str; 5] = ["Int", "Float", "String", "Boolean", "ID"];
+
+impl Ty {
+    pub(crate) fn is_non_null(&self) -> bool { matches!(self, Ty::NonNullNamed(_) | Ty::NonNullList(_)) }
+    pub(crate) fn print(&self) -> String {
+        match self {
+            Ty::Named(n) => n.clone(),
+            Ty::NonNullNamed(n) => format!("{n}!"),
+            Ty::List(t) => format!("[{}]", t.print()),
+            Ty::NonNullList(t) => format!("[{}]!", t.print()),
+        }
+    }
+    pub(crate) fn enc(&self, out: &mut Vec<String>) {
+        match self {
+            Ty::Named(n) => out.push(format!("n{n}")),
+            Ty::NonNullNamed(n) => out.push(format!("N{n}")),
+            Ty::List(t) => { out.push("l".into()); t.enc(out) }
+            Ty::NonNullList(t) => { out.push("L".into()); t.enc(out) }
+        }
+    }
+}
+
+impl Lit {
+    pub(crate) fn print(&self) -> String {
+        match self {
+            Lit::Null => "null".into(),
+            Lit::Bool(b) => b.to_string(),
+            Lit::Int(i) => i.to_string(),
+            Lit::Float(t) => t.clone(),
+            Lit::Str(s) => format!("\"{s}\""),
+            Lit::Enum(e) => e.clone(),
+            Lit::List(xs) => format!("[{}]", xs.iter().map(|x| x.print()).collect::<Vec<_>>().join(", ")),
+            Lit::Obj(kvs) => format!("{{{}}}", kvs.iter().map(|(k, v)| format!("{k}: {}", v.print())).collect::<Vec<_>>().join(", ")),
+        }
+    }
+    pub(crate) fn enc(&self, out: &mut Vec<String>) {
+        match self {
+            Lit::Null => out.push("z".into()),
+            Lit::Bool(b) => out.push(if *b { "t" } else { "f" }.into()),
+            Lit::Int(i) => out.push(format!("i{i}")),
+            Lit::Float(t) => out.push(format!("d{t}")),
+            Lit::Str(s) => out.push(format!("s{s}")),
+            Lit::Enum(e) => out.push(format!("e{e}")),
+            Lit::List(xs) => { out.push(format!("a{}", xs.len())); for x in xs { x.enc(out) } }
+            Lit::Obj(kvs) => { out.push(format!("o{}", kvs.len())); for (k, v) in kvs { out.push(format!("k{k}")); v.enc(out) } }
+        }
+    }
+    /// the JSON form of a constant literal (what a constant *means*, spec §2.9)
+    pub(crate) fn to_jv(&self) -> JV {
+        match self {
+            Lit::Null => JV::Null,
+            Lit::Bool(b) => JV::Bool(*b),
+            Lit::Int(i) => JV::Int(*i),
+            Lit::Float(t) => JV::Float(t.clone()),
+            Lit::Str(s) | Lit::Enum(s) => JV::Str(s.clone()),
+            Lit::List(xs) => JV::Arr(xs.iter().map(|x| x.to_jv()).collect()),
+            Lit::Obj(kvs) => JV::Obj(kvs.iter().map(|(k, v)| (k.clone(), v.to_jv())).collect()),
+        }
+    }
+}
+
+impl JV {
+    pub(crate) fn json_text(&self) -> String {
+        match self {
+            JV::Null => "null".into(),
+            JV::Bool(b) => b.to_string(),
+            JV::Int(i) => i.to_string(),
+            JV::Float(t) => t.clone(),
+            JV::Str(s) => format!("\"{s}\""),
+            JV::Arr(xs) => format!("[{}]", xs.iter().map(|x| x.json_text()).collect::<Vec<_>>().join(",")),
+            JV::Obj(kvs) => format!("{{{}}}", kvs.iter().map(|(k, v)| format!("\"{k}\":{}", v.json_text())).collect::<Vec<_>>().join(",")),
+        }
+    }
+    pub(crate) fn enc(&self, out: &mut Vec<String>) {
+        match self {
+            JV::Null => out.push("z".into()),
+            JV::Bool(b) => out.push(if *b { "t" } else { "f" }.into()),
+            JV::Int(i) => out.push(format!("i{i}")),
+            JV::Float(t) => out.push(format!("d{t}")),
+            JV::Str(s) => out.push(format!("s{s}")),
+            JV::Arr(xs) => { out.push(format!("a{}", xs.len())); for x in xs { x.enc(out) } }
+            JV::Obj(kvs) => { out.push(format!("o{}", kvs.len())); for (k, v) in kvs { out.push(format!("k{k}")); v.enc(out) } }
+        }
+    }
+    /// keys sorted at every level (hash/insertion order is not the subject of C28)
+    pub(crate) fn sorted(&self) -> JV {
+        match self {
+            JV::Arr(xs) => JV::Arr(xs.iter().map(|x| x.sorted()).collect()),
+            JV::Obj(kvs) => {
+                let mut v: Vec<(String, JV)> = kvs.iter().map(|(k, v)| (k.clone(), v.sorted())).collect();
+                v.sort_by(|a, b| a.0.cmp(&b.0));
+                JV::Obj(v)
+            }
+            x => x.clone(),
+        }
+    }
+    pub(crate) fn from_sj(v: &SJ) -> JV {
+        match v {
+            SJ::Null => JV::Null,
+            SJ::Bool(b) => JV::Bool(*b),
+            SJ::Number(n) => {
+                if let Some(i) = n.as_i64() { JV::Int(i as i128) }
+                else if let Some(u) = n.as_u64() { JV::Int(u as i128) }
+                else { JV::Float(n.to_string()) }
+            }
+            SJ::String(s) => JV::Str(s.as_str().to_string()),
+            SJ::Array(xs) => JV::Arr(xs.iter().map(JV::from_sj).collect()),
+            SJ::Object(m) => JV::Obj(m.iter().map(|(k, v)| (k.as_str().to_string(), JV::from_sj(v))).collect()),
+        }
+    }
+    pub(crate) fn to_sj(&self) -> SJ {
+        serde_json::from_str::<SJ>(&self.json_text()).expect("generated JSON parses")
+    }
+    pub(crate) fn depth(&self) -> usize {
+        match self {
+            JV::Arr(xs) => 1 + xs.iter().map(|x| x.depth()).max().unwrap_or(0),
+            JV::Obj(kvs) => 1 + kvs.iter().map(|(_, x)| x.depth()).max().unwrap_or(0),
+            _ => 0,
+        }
+    }
+}
+
+pub(crate) fn toks(v: Vec<String>) -> String { format!("={}", v.join(" ")) }
+
+#[derive(Clone, Debug)]
+pub struct VarDef {
+    pub name: String,
+    pub ty: Ty,
+    pub default: Option<Lit>,
+}
+
+fn enc_schema(sd: &SchemaDesc) -> String {
+    let mut out = vec![sd.types.len().to_string()];
+    for (n, k) in &sd.types {
+        match k {
+            Kind::Scalar => out.push(format!("S{n}")),
+            Kind::Enum(vs) => { out.push(format!("E{n}")); out.push(vs.len().to_string()); for v in vs { out.push(format!("v{v}")) } }
+            Kind::Input(fs) => {
+                out.push(format!("I{n}"));
+                out.push(fs.len().to_string());
+                for f in fs {
+                    out.push(format!("f{}", f.name));
+                    f.ty.enc(&mut out);
+                    match &f.default { None => out.push("-".into()), Some(d) => { out.push("=".into()); d.enc(&mut out) } }
+                }
+            }
+        }
+    }
+    toks(out)
+}
+
+fn enc_vars(vs: &[VarDef]) -> String {
+    let mut out = vec![vs.len().to_string()];
+    for v in vs {
+        out.push(format!("v{}", v.name));
+        v.ty.enc(&mut out);
+        match &v.default { None => out.push("-".into()), Some(d) => { out.push("=".into()); d.enc(&mut out) } }
+    }
+    toks(out)
+}
+
+fn sdl(sd: &SchemaDesc, vars: &[VarDef]) -> String {
+    let mut s = String::new();
+    for (n, k) in &sd.types {
+        match k {
+            Kind::Scalar => s.push_str(&format!("scalar {n}\n")),
+            Kind::Enum(vs) => s.push_str(&format!("enum {n} {{ {} }}\n", vs.join(" "))),
+            Kind::Input(fs) => {
+                s.push_str(&format!("input {n} {{\n"));
+                for f in fs {
+                    s.push_str(&format!("  {}: {}", f.name, f.ty.print()));
+                    if let Some(d) = &f.default { s.push_str(&format!(" = {}", d.print())) }
+                    s.push('\n');
+                }
+                s.push_str("}\n");
+            }
+        }
+    }
+    s.push_str("type Query {\n  zz: Int\n");
+    for (i, v) in vars.iter().enumerate() { s.push_str(&format!("  q{i}(a: {}): Int\n", v.ty.print())) }
+    s.push_str("}\n");
+    s
+}
+
+fn op_text(vars: &[VarDef]) -> String {
+    if vars.is_empty() { return "query { zz }".into(); }
+    let mut s = String::from("query(");
+    for v in vars {
+        s.push_str(&format!("${}: {}", v.name, v.ty.print()));
+        if let Some(d) = &v.default { s.push_str(&format!(" = {}", d.print())) }
+        s.push(' ');
+    }
+    s.push_str(") {");
+    for (i, v) in vars.iter().enumerate() { s.push_str(&format!(" q{i}(a: ${})", v.name)) }
+    s.push_str(" }");
+    s
+}
+
+// ───────────────────────── the specification side (independent of apollo's code) ─────────────────────────
+
+#[derive(Clone, Copy, PartialEq)]
+struct Flags {
+    /// use default values as written instead of coercing them (the behaviour of finding `default-not-coerced`)
+    raw_defaults: bool,
+}
+const SPEC: Flags = Flags { raw_defaults: false };
+
+const MAX_SAFE_INT: i128 = (1 << 53) - 1;
+
+/// Input coercion of `v` to `ty` (spec §3.5–§3.12).  `Err(())` = a request error.
+fn spec_coerce(sd: &SchemaDesc, fl: Flags, ty: &Ty, v: &JV) -> Result<JV, ()> {
+    // §3.12 Non-Null / nullable
+    if *v == JV::Null {
+        return if ty.is_non_null() { Err(()) } else { Ok(JV::Null) };
+    }
+    match ty {
+        // §3.11 List: a list is coerced item-wise; anything else is a list of size one
+        Ty::List(item) | Ty::NonNullList(item) => match v {
+            JV::Arr(xs) => Ok(JV::Arr(xs.iter().map(|x| spec_coerce(sd, fl, item, x)).collect::<Result<_, _>>()?)),
+            other => Ok(JV::Arr(vec![spec_coerce(sd, fl, item, other)?])),
+        },
+        Ty::Named(n) | Ty::NonNullNamed(n) => match n.as_str() {
+            "Int" => match v { JV::Int(i) if (-(1i128 << 31)..(1i128 << 31)).contains(i) => Ok(v.clone()), _ => Err(()) },
+            "Float" => match v {
+                JV::Float(_) => Ok(v.clone()),
+                JV::Int(i) if i.abs() < MAX_SAFE_INT => Ok(v.clone()),
+                _ => Err(()),
+            },
+            "String" => match v { JV::Str(_) => Ok(v.clone()), _ => Err(()) },
+            "Boolean" => match v { JV::Bool(_) => Ok(v.clone()), _ => Err(()) },
+            "ID" => match v {
+                JV::Str(_) => Ok(v.clone()),
+                JV::Int(_) => Ok(v.clone()),
+                _ => Err(()),
+            },
+            _ => match sd.kind(n).ok_or(())? {
+                Kind::Scalar => Ok(v.clone()),
+                Kind::Enum(vals) => match v { JV::Str(s) if vals.contains(s) => Ok(v.clone()), _ => Err(()) },
+                Kind::Input(fields) => {
+                    let JV::Obj(kvs) = v else { return Err(()) };
+                    if kvs.iter().any(|(k, _)| !fields.iter().any(|f| f.name == *k)) { return Err(()); }
+                    let mut out = vec![];
+                    for f in fields {
+                        if let Some((_, fv)) = kvs.iter().find(|(k, _)| *k == f.name) {
+                            out.push((f.name.clone(), spec_coerce(sd, fl, &f.ty, fv)?));
+                        } else if let Some(d) = &f.default {
+                            out.push((f.name.clone(), spec_default(sd, fl, &f.ty, d)?));
+                        } else if f.ty.is_non_null() {
+                            return Err(());
+                        }
+                    }
+                    Ok(JV::Obj(out))
+                }
+            },
+        },
+    }
+}
+
+fn spec_default(sd: &SchemaDesc, fl: Flags, ty: &Ty, d: &Lit) -> Result<JV, ()> {
+    if fl.raw_defaults { Ok(d.to_jv()) } else { spec_coerce(sd, fl, ty, &d.to_jv()) }
+}
+
+/// CoerceVariableValues (spec §6.1.2)
+fn spec_coerce_vars(sd: &SchemaDesc, fl: Flags, vars: &[VarDef], values: &[(String, JV)]) -> Result<JV, ()> {
+    let mut out = vec![];
+    for vd in vars {
+        let provided = values.iter().find(|(k, _)| *k == vd.name).map(|(_, v)| v);
+        match (provided, &vd.default) {
+            (None, Some(d)) => out.push((vd.name.clone(), spec_default(sd, fl, &vd.ty, d)?)),
+            (None, None) => if vd.ty.is_non_null() { return Err(()) },
+            (Some(v), _) => out.push((vd.name.clone(), spec_coerce(sd, fl, &vd.ty, v)?)),
+        }
+    }
+    Ok(JV::Obj(out))
+}
+
+/// "conforms to its declared type": what a coerced value of type `ty` looks like.
+fn conforms(sd: &SchemaDesc, ty: &Ty, v: &JV) -> bool {
+    if *v == JV::Null { return !ty.is_non_null(); }
+    match ty {
+        Ty::List(item) | Ty::NonNullList(item) => match v { JV::Arr(xs) => xs.iter().all(|x| conforms(sd, item, x)), _ => false },
+        Ty::Named(n) | Ty::NonNullNamed(n) => match n.as_str() {
+            "Int" => matches!(v, JV::Int(i) if (-(1i128 << 31)..(1i128 << 31)).contains(i)),
+            "Float" => matches!(v, JV::Float(_)) || matches!(v, JV::Int(i) if i.abs() < MAX_SAFE_INT),
+            "String" => matches!(v, JV::Str(_)),
+            "Boolean" => matches!(v, JV::Bool(_)),
+            "ID" => matches!(v, JV::Str(_) | JV::Int(_)),
+            _ => match sd.kind(n) {
+                None => false,
+                Some(Kind::Scalar) => true,
+                Some(Kind::Enum(vals)) => matches!(v, JV::Str(s) if vals.contains(s)),
+                Some(Kind::Input(fields)) => match v {
+                    JV::Obj(kvs) => {
+                        kvs.iter().all(|(k, _)| fields.iter().any(|f| f.name == *k))
+                            && fields.iter().all(|f| match kvs.iter().find(|(k, _)| *k == f.name) {
+                                Some((_, fv)) => conforms(sd, &f.ty, fv),
+                                None => f.default.is_none() && !f.ty.is_non_null(),
+                            })
+                    }
+                    _ => false,
+                },
+            },
+        },
+    }
+}
+
+// ───────────────────────── running the real code ─────────────────────────
+
+struct Compiled {
+    schema: apollo_compiler::validation::Valid<Schema>,
+    doc: apollo_compiler::validation::Valid<ExecutableDocument>,
+}
+
+fn compile(sd: &SchemaDesc, vars: &[VarDef]) -> Result<Compiled, String> {
+    let schema = Schema::parse_and_validate(sdl(sd, vars), "s.graphql").map_err(|e| format!("schema: {}", e.errors))?;
+    let doc = ExecutableDocument::parse_and_validate(&schema, op_text(vars), "q.graphql").map_err(|e| format!("operation: {}", e.errors))?;
+    Ok(Compiled { schema, doc })
+}
+
+fn run_impl(c: &Compiled, values: &[(String, JV)]) -> Result<JV, ()> {
+    let op = c.doc.operations.get(None).expect("one operation");
+    let SJ::Object(map) = JV::Obj(values.to_vec()).to_sj() else { unreachable!() };
+    match apollo_compiler::request::coerce_variable_values(&c.schema, op, &map) {
+        Ok(m) => Ok(JV::from_sj(&SJ::Object(m.into_inner()))),
+        Err(_) => Err(()),
+    }
+}
+
+fn show(r: &Result<JV, ()>) -> String {
+    match r { Ok(v) => { let mut t = vec!["ok".to_string()]; v.sorted().enc(&mut t); t.join(" ") } Err(()) => "err".into() }
+}
+
+fn kind_tag(sd: &SchemaDesc, ty: &Ty) -> String {
+    match ty {
+        Ty::List(t) | Ty::NonNullList(t) => format!("list-of-{}", kind_tag(sd, t)),
+        Ty::Named(n) | Ty::NonNullNamed(n) => {
+            if BUILTIN.contains(&n.as_str()) { n.clone() } else {
+                match sd.kind(n) { Some(Kind::Scalar) => "custom".into(), Some(Kind::Enum(_)) => "enum".into(), Some(Kind::Input(_)) => "input".into(), None => "undefined".into() }
+            }
+        }
+    }
+}
+
+fn one(ctx: &mut Ctx, sd: &SchemaDesc, vars: &[VarDef], c: &Compiled, values: &[(String, JV)]) {
+    let input = format!("{} || {} || {}", sdl(sd, vars).replace('\n', " "), op_text(vars), JV::Obj(values.to_vec()).json_text());
+    let got = match catch(|| run_impl(c, values)) {
+        Ok(r) => r,
+        Err(p) => { ctx.fail("coercion-panics", &input, &p); return; }
+    };
+    let want = spec_coerce_vars(sd, SPEC, vars, values);
+    let got_s = show(&got);
+    let want_s = show(&want);
+    for v in vars { ctx.stat(&format!("var_kind:{}", kind_tag(sd, &v.ty).replace("list-of-list-of-", "list2-of-"))); }
+    ctx.stat(if got.is_ok() { "impl_ok" } else { "impl_err" });
+    if got_s != want_s {
+        // which documented deviation (if any) explains the difference?
+        let alt = |fl: Flags| show(&spec_coerce_vars(sd, fl, vars, values)) == got_s;
+        let key = if alt(Flags { raw_defaults: true }) { "default-not-coerced" }
+            else if got.is_ok() && want.is_err() { "coercion-accepts-invalid" }
+            else if got.is_err() && want.is_ok() { "coercion-rejects-valid" }
+            else { "coercion-wrong-value" };
+        ctx.fail(key, &input, &format!("coerce_variable_values = {got_s}; CoerceVariableValues of the specification = {want_s}"));
+    } else if let Ok(JV::Obj(kvs)) = &got {
+        // second, direct statement of the property on the result
+        for vd in vars {
+            let provided = values.iter().any(|(k, _)| *k == vd.name);
+            let present = kvs.iter().find(|(k, _)| *k == vd.name);
+            if present.is_some() != (provided || vd.default.is_some()) {
+                ctx.fail("coercion-wrong-keys", &input, &format!("variable {} provided={provided} default={} but present={}", vd.name, vd.default.is_some(), present.is_some()));
+            }
+            if let Some((_, v)) = present {
+                if !conforms(sd, &vd.ty, v) {
+                    ctx.fail("coercion-result-does-not-conform", &input, &format!("variable {} : {} got {}", vd.name, vd.ty.print(), v.json_text()));
+                }
+            }
+        }
+        if kvs.iter().any(|(k, _)| !vars.iter().any(|v| v.name == *k)) {
+            ctx.fail("coercion-wrong-keys", &input, "result has a key that is not a declared variable");
+        }
+        ctx.nontrivial(&format!("{}|{}", enc_vars(vars), show(&got)));
+    } else {
+        ctx.nontrivial(&format!("{}|{}", enc_vars(vars), JV::Obj(values.to_vec()).json_text()));
+    }
+    let mut vt = vec![];
+    JV::Obj(values.to_vec()).enc(&mut vt);
+    ctx.case("c28.cv", &[enc_schema(sd), enc_vars(vars), toks(vt)], &got_s);
+}
+
+// ───────────────────────── generators ─────────────────────────
+
+fn int_atoms() -> Vec<i128> {
+    vec![
+        0, 1, -1, 42,
+        (1 << 31) - 1, 1 << 31, -(1 << 31), -(1 << 31) - 1,
+        // ±(2^53−1) itself is left out on purpose: the documented bound ("maximum safe integer") can be read either way there
+        (1 << 53) - 2, 1 << 53, -((1 << 53) - 2), -(1 << 53),
+        i64::MAX as i128, i64::MIN as i128, i64::MAX as i128 + 1, u64::MAX as i128,
+    ]
+}
+/// float texts that serde_json prints back unchanged
+const FLOAT_ATOMS: [&str; 6] = ["1.5", "-0.25", "3.0", "1e+100", "-1e+100", "2147483648.5"];
+const STR_ATOMS: [&str; 7] = ["", "1", "abc", "RED", "GREEN", "1.5", "true"];
+
+fn atoms() -> Vec<JV> {
+    let mut v = vec![JV::Null, JV::Bool(true), JV::Bool(false)];
+    v.extend(int_atoms().into_iter().map(JV::Int));
+    v.extend(FLOAT_ATOMS.iter().map(|t| JV::Float(t.to_string())));
+    v.extend(STR_ATOMS.iter().map(|t| JV::Str(t.to_string())));
+    v
+}
+
+fn gen_atom(rng: &mut Rng) -> JV {
+    let a = atoms();
+    match rng.below(10) {
+        0 => JV::Int(rng.below(7) as i128 - 3),
+        1 => {
+            // around the boundaries
+            let b = *rng.pick(&[1i128 << 31, -(1i128 << 31), 1i128 << 53, -(1i128 << 53), 1i128 << 63, -(1i128 << 63)]);
+            let mut z = b + rng.below(7) as i128 - 3;
+            if z.abs() == MAX_SAFE_INT { z += 1; }
+            if z > u64::MAX as i128 { z = u64::MAX as i128 }
+            if z < i64::MIN as i128 { z = i64::MIN as i128 }
+            JV::Int(z)
+        }
+        _ => rng.pick(&a).clone(),
+    }
+}
+
+fn gen_json_random(rng: &mut Rng, depth: usize, keys: &[String]) -> JV {
+    let k = rng.below(10);
+    if depth == 0 || k < 5 { return gen_atom(rng); }
+    if k < 7 {
+        let n = rng.below(4);
+        JV::Arr((0..n).map(|_| gen_json_random(rng, depth - 1, keys)).collect())
+    } else {
+        let mut out: Vec<(String, JV)> = vec![];
+        for key in keys { if rng.chance(1, 2) { out.push((key.clone(), gen_json_random(rng, depth - 1, keys))); } }
+        if rng.chance(1, 8) { out.push(("unknown".into(), gen_atom(rng))); }
+        JV::Obj(out)
+    }
+}
+
+fn names_of(sd: &SchemaDesc) -> Vec<String> {
+    let mut v: Vec<String> = BUILTIN.iter().map(|s| s.to_string()).collect();
+    v.extend(sd.types.iter().map(|(n, _)| n.clone()));
+    v
+}
+
+/// a type reference over `names`; `strict_ok(name)` tells whether a non-null *singular* reference is allowed
+fn gen_ty(rng: &mut Rng, names: &[String], depth: usize, singular_nonnull_ok: &dyn Fn(&str) -> bool) -> Ty {
+    if depth > 0 && rng.chance(2, 5) {
+        let inner = gen_ty(rng, names, depth - 1, &|_| true);
+        return if rng.chance(1, 2) { Ty::List(Box::new(inner)) } else { Ty::NonNullList(Box::new(inner)) };
+    }
+    let n = rng.pick(names).clone();
+    if rng.chance(1, 2) && singular_nonnull_ok(&n) { Ty::NonNullNamed(n) } else { Ty::Named(n) }
+}
+
+/// JSON value that the specification accepts for `ty` (used as the starting point of mutations)
+fn gen_json_valid(rng: &mut Rng, sd: &SchemaDesc, ty: &Ty, depth: usize) -> JV {
+    if !ty.is_non_null() && (depth == 0 || rng.chance(1, 8)) { return JV::Null; }
+    match ty {
+        Ty::List(item) | Ty::NonNullList(item) => {
+            if depth > 0 && rng.chance(1, 4) {
+                let v = gen_json_valid(rng, sd, item, depth - 1);
+                if v != JV::Null && !matches!(v, JV::Arr(_)) { return v; } // single value, to be wrapped
+                return JV::Arr(vec![v]);
+            }
+            let n = if depth == 0 { 0 } else { rng.below(3) };
+            JV::Arr((0..n).map(|_| gen_json_valid(rng, sd, item, depth - 1)).collect())
+        }
+        Ty::Named(n) | Ty::NonNullNamed(n) => match n.as_str() {
+            "Int" => JV::Int(*rng.pick(&[0, 1, -1, 42, (1i128 << 31) - 1, -(1i128 << 31)])),
+            "Float" => if rng.chance(1, 2) { JV::Float(rng.pick(&FLOAT_ATOMS).to_string()) } else { JV::Int(*rng.pick(&[0, 7, -7, (1i128 << 53) - 2, -((1i128 << 53) - 2), 1i128 << 31])) },
+            "String" => JV::Str(rng.pick(&STR_ATOMS).to_string()),
+            "Boolean" => JV::Bool(rng.chance(1, 2)),
+            "ID" => if rng.chance(1, 2) { JV::Str(rng.pick(&STR_ATOMS).to_string()) } else { JV::Int(*rng.pick(&[0, 5, -5, 1i128 << 40, i64::MAX as i128, i64::MIN as i128])) },
+            _ => match sd.kind(n).expect("defined") {
+                Kind::Scalar => gen_json_random(rng, 2, &["a".to_string(), "b".to_string()]),
+                Kind::Enum(vs) => JV::Str(rng.pick(vs).clone()),
+                Kind::Input(fields) => {
+                    let mut out = vec![];
+                    for f in fields {
+                        let required = f.ty.is_non_null() && f.default.is_none();
+                        if required || (depth > 0 && rng.chance(3, 5)) {
+                            out.push((f.name.clone(), gen_json_valid(rng, sd, &f.ty, depth.saturating_sub(1))));
+                        }
+                    }
+                    // provided order is independent of declaration order
+                    if out.len() > 1 && rng.chance(1, 2) { out.reverse(); }
+                    JV::Obj(out)
+                }
+            },
+        },
+    }
+}
+
+/// a constant literal valid for `ty` (validation accepts it)
+fn gen_lit_valid(rng: &mut Rng, sd: &SchemaDesc, ty: &Ty, depth: usize) -> Lit { gen_lit_valid_lim(rng, sd, ty, depth, usize::MAX) }
+
+fn input_index(n: &str) -> Option<usize> {
+    if n.len() >= 2 && n.starts_with('I') { n[1..].parse().ok() } else { None }
+}
+
+/// `limit`: no object literal of an input type `I<k>` with k ≥ limit (defaults of `I<i>` only mention lower-numbered
+/// input types, so that coercing a default — which fills in further defaults — is well-founded)
+fn gen_lit_valid_lim(rng: &mut Rng, sd: &SchemaDesc, ty: &Ty, depth: usize, limit: usize) -> Lit {
+    if input_index(inner_name(ty)).is_some_and(|k| k >= limit) {
+        return if !ty.is_non_null() { Lit::Null } else { Lit::List(vec![]) };
+    }
+    if !ty.is_non_null() && (depth == 0 || rng.chance(1, 8)) { return Lit::Null; }
+    match ty {
+        Ty::List(item) | Ty::NonNullList(item) => {
+            if depth > 0 && rng.chance(1, 3) {
+                let v = gen_lit_valid_lim(rng, sd, item, depth - 1, limit);
+                if v != Lit::Null && !matches!(v, Lit::List(_)) { return v; }
+                return Lit::List(vec![v]);
+            }
+            let n = if depth == 0 { 0 } else { rng.below(3) };
+            Lit::List((0..n).map(|_| gen_lit_valid_lim(rng, sd, item, depth - 1, limit)).collect())
+        }
+        Ty::Named(n) | Ty::NonNullNamed(n) => match n.as_str() {
+            "Int" => Lit::Int(*rng.pick(&[0, 1, -1, 42, (1i128 << 31) - 1, -(1i128 << 31)])),
+            "Float" => if rng.chance(1, 2) { Lit::Float(rng.pick(&["1.5", "-0.25", "3.0", "1e+100"]).to_string()) } else { Lit::Int(*rng.pick(&[0, 7, -7])) },
+            "String" => Lit::Str(rng.pick(&STR_ATOMS).to_string()),
+            "Boolean" => Lit::Bool(rng.chance(1, 2)),
+            "ID" => if rng.chance(1, 2) { Lit::Str(rng.pick(&STR_ATOMS).to_string()) } else { Lit::Int(*rng.pick(&[0, 5, -5])) },
+            _ => match sd.kind(n).expect("defined") {
+                Kind::Scalar => rng.pick(&[Lit::Int(3), Lit::Str("x".into()), Lit::Bool(true), Lit::List(vec![Lit::Int(1)]), Lit::Obj(vec![("k".into(), Lit::Float("1.5".into()))]), Lit::Enum("WHATEVER".into())]).clone(),
+                Kind::Enum(vs) => Lit::Enum(rng.pick(vs).clone()),
+                Kind::Input(fields) => {
+                    let mut out = vec![];
+                    for f in fields {
+                        let required = f.ty.is_non_null() && f.default.is_none();
+                        if required || (depth > 0 && rng.chance(1, 2)) {
+                            out.push((f.name.clone(), gen_lit_valid_lim(rng, sd, &f.ty, depth.saturating_sub(1), limit)));
+                        }
+                    }
+                    Lit::Obj(out)
+                }
+            },
+        },
+    }
+}
+
+fn gen_schema(rng: &mut Rng) -> SchemaDesc {
+    let mut sd = SchemaDesc { types: vec![("Any".into(), Kind::Scalar), ("Color".into(), Kind::Enum(vec!["RED".into(), "GREEN".into(), "BLUE".into()]))] };
+    let n_inputs = 1 + rng.below(3);
+    let input_names: Vec<String> = (0..n_inputs).map(|i| format!("I{i}")).collect();
+    for i in 0..n_inputs {
+        let mut names = names_of(&sd);
+        // later input objects may be referenced too (through nullable or list positions)
+        for n in &input_names { if !names.contains(n) { names.push(n.clone()); } }
+        let nf = 1 + rng.below(4);
+        let mut fields = vec![];
+        for j in 0..nf {
+            let lower: Vec<String> = input_names[..i].to_vec();
+            let ty = gen_ty(rng, &names, 2, &|n: &str| !n.starts_with('I') || n == "ID" || n == "Int" || lower.iter().any(|l| l == n));
+            fields.push(FieldDef { name: format!("{}", (b'a' + j as u8) as char), ty, default: None });
+        }
+        sd.types.push((input_names[i].clone(), Kind::Input(fields)));
+    }
+    // defaults: only once all types exist; defaults of input-object type only for lower-numbered types
+    for i in 0..n_inputs {
+        let Kind::Input(fields) = sd.types[2 + i].1.clone() else { unreachable!() };
+        let mut new_fields = fields.clone();
+        for f in new_fields.iter_mut() {
+            if rng.chance(2, 5) {
+                f.default = Some(gen_lit_valid_lim(rng, &sd, &f.ty, 2, i));
+            }
+        }
+        sd.types[2 + i].1 = Kind::Input(new_fields);
+    }
+    sd
+}
+
+fn inner_name(t: &Ty) -> &str {
+    match t { Ty::Named(n) | Ty::NonNullNamed(n) => n, Ty::List(t) | Ty::NonNullList(t) => inner_name(t) }
+}
+
+fn mutate(rng: &mut Rng, v: &JV, keys: &[String]) -> JV {
+    match v {
+        JV::Arr(xs) if !xs.is_empty() && rng.chance(3, 4) => {
+            let i = rng.below(xs.len());
+            let mut ys = xs.clone();
+            ys[i] = mutate(rng, &xs[i], keys);
+            JV::Arr(ys)
+        }
+        JV::Obj(kvs) if rng.chance(3, 4) => {
+            let mut out = kvs.clone();
+            match rng.below(4) {
+                0 => out.push((if rng.chance(1, 2) { "unknown".to_string() } else { rng.pick(keys).clone() }, gen_atom(rng))),
+                1 if !out.is_empty() => { let i = rng.below(out.len()); out.remove(i); }
+                _ if !out.is_empty() => { let i = rng.below(out.len()); out[i].1 = mutate(rng, &kvs[i].1, keys); }
+                _ => {}
+            }
+            // keys stay distinct (a JSON object is a map)
+            let mut seen = std::collections::HashSet::new();
+            out.retain(|(k, _)| seen.insert(k.clone()));
+            JV::Obj(out)
+        }
+        _ => match rng.below(5) {
+            0 => JV::Arr(vec![v.clone()]),
+            1 => JV::Null,
+            _ => gen_atom(rng),
+        },
+    }
+}
+
+/// all wrappings of `name` up to two list layers
+fn wrappings(name: &str) -> Vec<Ty> {
+    let n = || Ty::Named(name.to_string());
+    let nn = || Ty::NonNullNamed(name.to_string());
+    let l = |t: Ty| Ty::List(Box::new(t));
+    let ll = |t: Ty| Ty::NonNullList(Box::new(t));
+    vec![n(), nn(), l(n()), l(nn()), ll(n()), ll(nn()), l(l(n())), l(ll(nn())), ll(l(nn())), ll(ll(nn()))]
+}
+
+fn fixed_schema() -> SchemaDesc {
+    let f = |n: &str, ty: Ty, d: Option<Lit>| FieldDef { name: n.into(), ty, default: d };
+    let nm = |s: &str| Ty::Named(s.into());
+    let nn = |s: &str| Ty::NonNullNamed(s.into());
+    SchemaDesc {
+        types: vec![
+            ("Any".into(), Kind::Scalar),
+            ("Color".into(), Kind::Enum(vec!["RED".into(), "GREEN".into()])),
+            ("P".into(), Kind::Input(vec![
+                f("x", nn("Int"), None),
+                f("y", nm("Int"), Some(Lit::Int(7))),
+                f("c", nm("Color"), Some(Lit::Enum("RED".into()))),
+                f("n", nm("Float"), None),
+            ])),
+            ("Q".into(), Kind::Input(vec![
+                f("p", nm("P"), None),
+                f("ps", Ty::List(Box::new(nn("P"))), Some(Lit::List(vec![]))),
+                f("q", nm("Q"), None),
+                f("id", nn("ID"), Some(Lit::Str("abc".into()))),
+                f("z", nm("Boolean"), Some(Lit::Null)),
+            ])),
+        ],
+    }
+}
+
+fn with_case(ctx: &mut Ctx, sd: &SchemaDesc, vars: &[VarDef], f: impl FnOnce(&mut Ctx, &Compiled)) {
+    match catch(|| compile(sd, vars)) {
+        Ok(Ok(c)) => f(ctx, &c),
+        Ok(Err(e)) => {
+            // the generator only writes schemas/operations it believes valid; count, and surface the first few
+            ctx.stat("generated_invalid");
+            if ctx.stats.get("generated_invalid").copied().unwrap_or(0) <= 3 {
+                ctx.fail("generator-invalid", &format!("{} || {}", sdl(sd, vars).replace('\n', " "), op_text(vars)), &e.replace('\n', " "));
+            }
+        }
+        Err(p) => ctx.fail("compile-panics", &format!("{} || {}", sdl(sd, vars).replace('\n', " "), op_text(vars)), &p),
+    }
+}
+
+pub fn run(ctx: &mut Ctx) {
+    // serde prints the float atoms back unchanged (so float texts can be compared as texts)
+    for t in FLOAT_ATOMS {
+        let back = JV::from_sj(&JV::Float(t.to_string()).to_sj());
+        if back != JV::Float(t.to_string()) { ctx.fail("harness-float-atom", t, &format!("{back:?}")); }
+    }
+    let fixed = fixed_schema();
+    let v = |n: &str, ty: Ty, d: Option<Lit>| VarDef { name: n.into(), ty, default: d };
+    let nm = |s: &str| Ty::Named(s.into());
+    let nn = |s: &str| Ty::NonNullNamed(s.into());
+    let list = |t: Ty| Ty::List(Box::new(t));
+    let obj = |kvs: Vec<(&str, JV)>| -> Vec<(String, JV)> { kvs.into_iter().map(|(k, v)| (k.to_string(), v)).collect() };
+
+    // ── regression inputs first ──
+    {
+        // the witness of the recorded finding (defaults) and of the repaired one (ID above i64::MAX, fix aeed67a), replayed on every run
+        let vars = vec![v("x", list(nm("Int")), Some(Lit::Int(1)))];
+        with_case(ctx, &fixed, &vars, |ctx, c| one(ctx, &fixed, &vars, c, &[]));
+        let vars = vec![v("p", nm("P"), Some(Lit::Obj(vec![("x".into(), Lit::Int(1))])))];
+        with_case(ctx, &fixed, &vars, |ctx, c| one(ctx, &fixed, &vars, c, &[]));
+        let vars = vec![v("i", nm("ID"), None)];
+        with_case(ctx, &fixed, &vars, |ctx, c| one(ctx, &fixed, &vars, c, &obj(vec![("i", JV::Int(i64::MAX as i128 + 1))])));
+        // the six unit tests' shapes
+        let vars = vec![v("bar", nn("Float"), None)];
+        with_case(ctx, &fixed, &vars, |ctx, c| {
+            for j in [JV::Float("9007199254740991.5".into()), JV::Int(14), JV::Int(i64::MAX as i128), JV::Str("14".into())] {
+                // 9007199254740991.5 is not printed back unchanged; it is only checked through ok/err and the oracle
+                if let JV::Float(_) = j { continue; }
+                one(ctx, &fixed, &vars, c, &obj(vec![("bar", j)]));
+            }
+        });
+        // explicit null vs absent, default vs provided, extra variables ignored
+        let vars = vec![v("a", nm("Int"), None), v("b", nm("Int"), Some(Lit::Int(5))), v("c", nn("Int"), Some(Lit::Int(6))), v("q", nm("Q"), None)];
+        with_case(ctx, &fixed, &vars, |ctx, c| {
+            one(ctx, &fixed, &vars, c, &[]);
+            one(ctx, &fixed, &vars, c, &obj(vec![("a", JV::Null), ("b", JV::Null)]));
+            one(ctx, &fixed, &vars, c, &obj(vec![("c", JV::Null)]));
+            one(ctx, &fixed, &vars, c, &obj(vec![("zzz", JV::Int(1)), ("a", JV::Int(2))]));
+            one(ctx, &fixed, &vars, c, &obj(vec![("q", JV::Obj(obj(vec![("p", JV::Obj(obj(vec![("x", JV::Int(1))]))), ("z", JV::Null)])))]));
+            one(ctx, &fixed, &vars, c, &obj(vec![("q", JV::Obj(obj(vec![("q", JV::Obj(obj(vec![("ps", JV::Obj(obj(vec![("x", JV::Int(3)), ("n", JV::Int(2))])))])))])))]));
+            one(ctx, &fixed, &vars, c, &obj(vec![("q", JV::Obj(obj(vec![("p", JV::Obj(obj(vec![("x", JV::Int(1)), ("w", JV::Int(1))])))])))]));
+            one(ctx, &fixed, &vars, c, &obj(vec![("q", JV::Obj(obj(vec![("p", JV::Obj(obj(vec![("y", JV::Int(1))])))])))]));
+            one(ctx, &fixed, &vars, c, &obj(vec![("q", JV::Obj(obj(vec![("id", JV::Null)])))]));
+        });
+    }
+
+    // ── exhaustive: every wrapping of every named type × every small JSON value ──
+    let mut small: Vec<JV> = atoms();
+    {
+        let leafs = vec![JV::Null, JV::Int(1), JV::Int(1 << 31), JV::Float("1.5".into()), JV::Str("RED".into()), JV::Bool(true), JV::Int(i64::MAX as i128 + 1)];
+        small.push(JV::Arr(vec![]));
+        for a in &leafs { small.push(JV::Arr(vec![a.clone()])); small.push(JV::Arr(vec![JV::Arr(vec![a.clone()])])); }
+        for a in &leafs { for b in &leafs { small.push(JV::Arr(vec![a.clone(), b.clone()])); } }
+        small.push(JV::Arr(vec![JV::Arr(vec![]), JV::Arr(vec![JV::Int(1), JV::Null])]));
+        small.push(JV::Arr(vec![JV::Arr(vec![JV::Arr(vec![JV::Int(1)])])]));
+        small.push(JV::Obj(vec![]));
+        for a in &leafs {
+            small.push(JV::Obj(obj(vec![("x", a.clone())])));
+            small.push(JV::Obj(obj(vec![("x", JV::Int(1)), ("y", a.clone())])));
+            small.push(JV::Obj(obj(vec![("n", a.clone()), ("x", JV::Int(0))])));
+            small.push(JV::Obj(obj(vec![("x", JV::Int(1)), ("c", a.clone())])));
+            small.push(JV::Obj(obj(vec![("p", JV::Obj(obj(vec![("x", a.clone())])))])));
+            small.push(JV::Obj(obj(vec![("ps", a.clone())])));
+            small.push(JV::Obj(obj(vec![("id", a.clone())])));
+            small.push(JV::Obj(obj(vec![("z", a.clone()), ("q", JV::Obj(obj(vec![("z", a.clone())])))])));
+        }
+        small.push(JV::Obj(obj(vec![("x", JV::Int(1)), ("unknown", JV::Int(1))])));
+        small.push(JV::Arr(vec![JV::Obj(obj(vec![("x", JV::Int(1))])), JV::Obj(obj(vec![("x", JV::Int(2)), ("y", JV::Null)]))]));
+        small.push(JV::Obj(obj(vec![("ps", JV::Obj(obj(vec![("x", JV::Int(1))])))])));
+        small.push(JV::Obj(obj(vec![("ps", JV::Arr(vec![JV::Obj(obj(vec![("x", JV::Int(1))])), JV::Null]))])));
+    }
+    ctx.stat_n("exhaustive_json_values", small.len() as u64);
+    for name in ["Int", "Float", "String", "Boolean", "ID", "Any", "Color", "P", "Q"] {
+        for ty in wrappings(name) {
+            let vars = vec![v("v", ty.clone(), None)];
+            with_case(ctx, &fixed, &vars, |ctx, c| {
+                one(ctx, &fixed, &vars, c, &[]);
+                for j in &small { one(ctx, &fixed, &vars, c, &obj(vec![("v", j.clone())])); }
+            });
+        }
+    }
+
+    // ── random schemas, operations and values ──
+    let n_schemas = if ctx.thorough { 20000 } else { 1200 };
+    let per_schema_ops = 6;
+    let per_op_values = if ctx.thorough { 24 } else { 12 };
+    for _ in 0..n_schemas {
+        let sd = gen_schema(&mut ctx.rng);
+        let names = names_of(&sd);
+        let mut keys: Vec<String> = vec!["a".into(), "b".into(), "c".into(), "d".into()];
+        keys.push("e".into());
+        for _ in 0..per_schema_ops {
+            let nv = 1 + ctx.rng.below(3);
+            let mut vars = vec![];
+            for i in 0..nv {
+                let ty = gen_ty(&mut ctx.rng, &names, 2, &|_| true);
+                let default = if ctx.rng.chance(1, 3) { Some(gen_lit_valid(&mut ctx.rng, &sd, &ty, 3)) } else { None };
+                vars.push(VarDef { name: format!("v{i}"), ty, default });
+            }
+            let sd2 = sd.clone();
+            let vars2 = vars.clone();
+            let keys = keys.clone();
+            with_case(ctx, &sd, &vars, move |ctx, c| {
+                for _ in 0..per_op_values {
+                    let mut values: Vec<(String, JV)> = vec![];
+                    for vd in &vars2 {
+                        let r = ctx.rng.below(10);
+                        if r == 0 { continue; } // absent
+                        let base = gen_json_valid(&mut ctx.rng, &sd2, &vd.ty, 3);
+                        let val = match r {
+                            1..=4 => base,
+                            5..=7 => mutate(&mut ctx.rng, &base, &keys),
+                            8 => { let m = mutate(&mut ctx.rng, &base, &keys); mutate(&mut ctx.rng, &m, &keys) }
+                            _ => gen_json_random(&mut ctx.rng, 3, &keys),
+                        };
+                        values.push((vd.name.clone(), val));
+                    }
+                    if ctx.rng.chance(1, 10) { values.push(("extra".into(), gen_atom(&mut ctx.rng))); }
+                    if values.len() > 1 && ctx.rng.chance(1, 3) { values.reverse(); }
+                    let d = values.iter().map(|(_, v)| v.depth()).max().unwrap_or(0);
+                    ctx.stat(&format!("json_depth_{}", d.min(5)));
+                    one(ctx, &sd2, &vars2, c, &values);
+                }
+            });
+        }
+    }
+}
